@@ -140,6 +140,11 @@ def concrete_check(k: dict, N, args: list, scratch: str):
     return ok, f"returns {ret!r}", ret
 
 
+def _interface_changed(text: str) -> bool:
+    t = text
+    return (t.startswith("raises TypeError") and ("argument" in t or "not callable" in t or "not subscriptable" in t)) or t.startswith("raises AttributeError") or t.startswith("raises ImportError") or t.startswith("raises ModuleNotFoundError")
+
+
 def run_kernel(k: dict, tier: str, scratch: str) -> dict:
     rec = {"kernel": k["name"], "bound_confirmed": None, "verdict": None, "seconds": 0.0, "rungs": []}
     out = {"kernels": [rec], "errors": [], "violations": [], "replays": 0, "paths": 0, "forks": 0, "queries": 0}
@@ -150,6 +155,11 @@ def run_kernel(k: dict, tier: str, scratch: str) -> dict:
             return out
     ladder = k["ladder"] if tier == "thorough" or len(k["ladder"]) == 1 else k["ladder"][1:] if k.get("quick_skip_first") else k["ladder"]
     timeout = k.get("timeout", 60) * (2 if tier == "thorough" else 1)
+    # CrossHair's per-condition budget is wall-clock time: stretch it on a loaded machine (up to 4x)
+    try:
+        timeout = int(timeout * max(1.0, min(4.0, os.getloadavg()[0] / (os.cpu_count() or 1))))
+    except OSError:
+        pass
     for N in ladder:
         src, la, lb = module_source(k, N)
         fname = f"{k['name']}_{str(N).replace(' ', '').replace(',', '_').replace('(', '').replace(')', '')}.py"
@@ -182,6 +192,13 @@ def run_kernel(k: dict, tier: str, scratch: str) -> dict:
                 return out
             ok, text, _ = concrete_check(k, N, args, scratch)
             out["replays"] += 1
+            if not ok and _interface_changed(text):
+                # the private function the kernel calls no longer has the interface the kernel was written for
+                # (renamed parameter, other arity, moved attribute): the kernel does not apply to this tree; the
+                # property falls back to its SYMEX instances (DESIGN 3.2), nothing is reported
+                rec["verdict"] = "skipped_interface_changed"
+                rec["missing"] = text[:200]
+                return out
             if ok:
                 out["errors"].append(f"kernel {k['name']} bound {N}: counterexample {args} does not reproduce concretely ({text})")
                 rec["verdict"] = "non-reproducing"
